@@ -285,6 +285,80 @@ def prepare_lines(res, tier):
     return job, finish
 
 
+EXPAND_ALPHABET = ['1', '2', '-3', '0', 'r', '2r', '3R', 'i', '2i', '1I', '3m', '2M',
+                   'm', 'j', '2J', 'x', '12']
+
+
+def prepare_expand(res, tier):
+    '''expand_data_card (nR nI xM nJ) on all token sequences up to a length
+    from EXPAND_ALPHABET, with and without an expected count; values compared
+    as exact fractions, by fingerprint.'''
+    nmax = 4 if tier == 'quick' else 5
+    cases, buckets, total = [], [], 0
+    for expected in (None, 2, 4):
+        top = nmax if expected is None else nmax - 1
+        for n in range(0, top + 1):
+            firsts = [[]] if n < 3 else [[t] for t in EXPAND_ALPHABET]
+            for pre in firsts:
+                free = n - len(pre)
+                acc = 0
+                for seq in itertools.product(EXPAND_ALPHABET, repeat=free):
+                    toks = pre + list(seq)
+                    out = I.f_expand(toks, expected)
+                    acc = (acc * 1000003 + I.hstr(out, I.hstr(' '.join(toks), 7))) % I.MODULUS
+                    total += 1
+                buckets.append((expected, free, pre))
+                cases.append(cpair(clist(cs(t) for t in EXPAND_ALPHABET), cn(free),
+                                   clist(cs(t) for t in pre),
+                                   common.copt(expected, cn), f'{acc}%uint63'))
+    res.count('expand:sequences', total)
+    res.evaluations += total
+
+    def job():
+        return common.run_case_files(
+            'c14_expand', HEADER, 'list string * N * list string * option N * int',
+            'check_fp_expand', cases, chunk=max(4, len(cases) // 12), jobs=JOBS)
+
+    def finish(result):
+        bad, errs = result
+        res.obligation(f'tie:expand (expand_data_card on all {total} token '
+                       f'sequences of <= {nmax} entries from a '
+                       f'{len(EXPAND_ALPHABET)}-token alphabet, expected in '
+                       '{None, 2, 4}, exact fractions, by fingerprint)',
+                       not bad and not errs, f'{len(bad)} buckets disagree {errs[:1]}')
+        for idx in bad[:3]:
+            expected, free, pre = buckets[idx]
+            explicit = []
+            for seq in itertools.islice(itertools.product(EXPAND_ALPHABET, repeat=free), 3000):
+                toks = pre + list(seq)
+                explicit.append((expected, toks, I.f_expand(toks, expected)))
+            ecases = [cpair(common.copt(e, cn), clist(cs(t) for t in toks), cs(out))
+                      for e, toks, out in explicit]
+            bad2, errs2 = common.run_case_files(
+                f'c14_expandx{idx}', HEADER, 'option N * list string * string',
+                'check_expand', ecases, chunk=400, jobs=JOBS)
+            if errs2:
+                raise RuntimeError(errs2[0][-600:])
+            for k in bad2[:3]:
+                e, toks, out = explicit[k]
+                model, _ = common.coq_eval(
+                    HEADER, f'expand_q {common.copt(e, lambda v: f"{v}%nat")} '
+                    + clist(cs(t) for t in toks))
+                res.violation('correspondence',
+                              f'expand_data_card: model and implementation disagree '
+                              f'on {toks} expected={e}: impl={out!r} model={model}',
+                              {'input': {'tokens': toks, 'expected': e},
+                               'observed': out, 'model': model,
+                               'theorem_or_correspondence': 'tie:expand'},
+                              found_input=False)
+            if not bad2:
+                res.violation('correspondence', 'fingerprint of expand_data_card '
+                              f'behind {pre} differs but no single input was isolated',
+                              {'theorem_or_correspondence': 'tie:expand'},
+                              found_input=False)
+    return job, finish
+
+
 # ---------------------------------------------------------------------------
 # layout tie on generated decks
 # ---------------------------------------------------------------------------
@@ -652,8 +726,8 @@ def run_all(res, tier, seed):
     rng_layout = random.Random(rng.random())
     rng_sweep = random.Random(rng.random())
     phases = [prepare_exhaustive(res, tier), prepare_lines(res, tier),
-              prepare_layout(res, tier, rng_layout)]
-    with ThreadPoolExecutor(max_workers=3) as pool:
+              prepare_layout(res, tier, rng_layout), prepare_expand(res, tier)]
+    with ThreadPoolExecutor(max_workers=4) as pool:
         futures = [pool.submit(job) for job, _ in phases]
         run_sweep(res, tier, rng_sweep)
         for (_, finish), fut in zip(phases, futures):
